@@ -194,7 +194,34 @@ def body_price(case, ctx: Ctx):
         back = H.tick_to_base_unit_price(max(T.MIN_TICK, min(T.MAX_TICK, tm)), d0, d1, q)
         rel = back / pm if back > pm else pm / back
         ctx.check(rel <= Decimal("1.0001") * Decimal("1.0001"), "price.price_roundtrip", lambda: f"price {pm} -> tick {tm} -> price {back}", case)
+    # the market's own convenience wrappers are the same conversions for its pool
+    from vf import world
+
+    mk = _wrapper_market(d0, d1, q)
+    pw = ctx.guarded("price.wrapper", case, mk.tick_to_price, t)
+    if pw is not None:
+        ctx.check(pw == H.tick_to_base_unit_price(t, d0, d1, q), "price.wrapper.t2p", lambda: f"market.tick_to_price({t}) = {pw}, helper gives {H.tick_to_base_unit_price(t, d0, d1, q)} (decimals {d0}/{d1}, token0 quote {q})", case)
+        tw = ctx.guarded("price.wrapper", case, mk.price_to_tick, pm)
+        # (the wrapper also rounds to the pool's tick spacing: within half a spacing, plus the one tick of the helpers)
+        sp_ = mk.pool_info.tick_spacing
+        if abs(t) <= T.MAX_TICK - sp_:
+            ctx.check(tw is not None and tw % sp_ == 0 and abs(tw - t) <= sp_ / 2 + 1, "price.wrapper.p2t", lambda: f"market.price_to_tick({pm}) = {tw} for a price inside tick {t} (spacing {sp_}, decimals {d0}/{d1}, token0 quote {q})", case)
     ctx.case(case, True, labels=[f"price.q{int(q)}", "price.neg" if t < 0 else "price.pos", f"price.ptype.{ptype}", f"price.ttype.{ttype}"])
+
+
+_WRAPPERS = {}
+
+
+def _wrapper_market(d0, d1, q):
+    from demeter import MarketInfo
+    from demeter.uniswap import UniLpMarket
+
+    from vf import world
+
+    key = (d0, d1, q)
+    if key not in _WRAPPERS:
+        _WRAPPERS[key] = UniLpMarket(MarketInfo("w"), world.uni_pool(d0, d1, q))
+    return _WRAPPERS[key]
 
 
 def _st_price():
